@@ -364,3 +364,216 @@ func zzH19_durfloat_nan() {
 	}
 	zzReach("end")
 }
+
+func zzMustTime(v starlark.Value, err error, id string) (sec, nsec int64) {
+	zzAssert(err == nil, id+".ok")
+	t, isT := v.(Time)
+	zzAssert(isT, id+".type")
+	return zzPair(time.Time(t))
+}
+
+// zzH19_algebra (H19.2): through the real starlark.Binary,
+// (t + d) - d == t, (t2 - t1) + t1 == t2, t + d == d + t, and the duration group
+// laws d1 + d2 - d2 == d1, d1 - d2 + d2 == d1 (which hold even when the
+// intermediate sum wraps). Times as in zzSymTime; d any int64 except the minimum
+// (whose negation is the known time_minus_dur finding); t2 = t1 + d0 with any d0.
+//
+//verif:unwind 40
+//verif:timeout 240000
+func zzH19_algebra() {
+	switch zzChoice("law", 4) {
+	case 0: // (t + d) - d == t
+		zzRelDivMode(2)
+		t, sec, nsec := zzSymTime("t")
+		d := zzI64("d")
+		zzAssume(d != math.MinInt64)
+		r1, err := starlark.Binary(syntax.PLUS, t, Duration(d))
+		zzAssert(err == nil, "C19.algebra.add_sub.ok1")
+		r2, err := starlark.Binary(syntax.MINUS, r1, Duration(d))
+		s2, n2 := zzMustTime(r2, err, "C19.algebra.add_sub")
+		zzObserve("s2", s2)
+		zzAssert(zzAnd(s2 == sec, n2 == nsec), "C19.algebra.add_sub.identity")
+		eq, err := starlark.Equal(r2, t)
+		zzAssert(zzAnd(err == nil, eq), "C19.algebra.add_sub.equal")
+	case 1: // (t2 - t1) + t1 == t2
+		zzRelDivMode(1)
+		t1, s1, n1 := zzSymTime("t1")
+		d0 := zzI64("d0")
+		t2v := time.Time(t1).Add(time.Duration(d0))
+		t2 := Time(t2v)
+		s2, n2 := zzPair(t2v)
+		// stepping stone: the difference time.Time.Sub forms is d0 (proved, then a lemma)
+		zzAssert((s2-s1)*zzNano+int64(int32(n2)-int32(n1)) == d0, "C19.lemma.subdiff")
+		diff, err := starlark.Binary(syntax.MINUS, t2, t1)
+		zzAssert(err == nil, "C19.algebra.sub_add.ok1")
+		dd, isD := diff.(Duration)
+		zzAssert(isD, "C19.algebra.sub_add.type")
+		zzObserve("diff", int64(dd))
+		zzAssert(int64(dd) == d0, "C19.algebra.sub_add.difference")
+		back, err := starlark.Binary(syntax.PLUS, diff, t1)
+		sb, nb := zzMustTime(back, err, "C19.algebra.sub_add")
+		zzAssert(zzAnd(sb == s2, nb == n2), "C19.algebra.sub_add.identity")
+		eq, err := starlark.Equal(back, t2)
+		zzAssert(zzAnd(err == nil, eq), "C19.algebra.sub_add.equal")
+	case 2: // t + d == d + t
+		zzRelDivMode(2)
+		t, _, _ := zzSymTime("t")
+		d := zzI64("d")
+		a, err := starlark.Binary(syntax.PLUS, t, Duration(d))
+		sa, na := zzMustTime(a, err, "C19.algebra.commute_l")
+		b, err := starlark.Binary(syntax.PLUS, Duration(d), t)
+		sb, nb := zzMustTime(b, err, "C19.algebra.commute_r")
+		zzAssert(zzAnd(sa == sb, na == nb), "C19.algebra.commute")
+	default: // duration group laws
+		d1, d2 := zzI64("d1"), zzI64("d2")
+		s, err := starlark.Binary(syntax.PLUS, Duration(d1), Duration(d2))
+		zzAssert(err == nil, "C19.algebra.dur.ok1")
+		r, err := starlark.Binary(syntax.MINUS, s, Duration(d2))
+		zzAssert(err == nil, "C19.algebra.dur.ok2")
+		rd, isD := r.(Duration)
+		zzAssert(isD, "C19.algebra.dur.type")
+		zzObserve("rd", int64(rd))
+		zzAssert(int64(rd) == d1, "C19.algebra.dur.add_sub")
+		m, err := starlark.Binary(syntax.MINUS, Duration(d1), Duration(d2))
+		zzAssert(err == nil, "C19.algebra.dur.ok3")
+		r2, err := starlark.Binary(syntax.PLUS, m, Duration(d2))
+		zzAssert(err == nil, "C19.algebra.dur.ok4")
+		zzAssert(int64(r2.(Duration)) == d1, "C19.algebra.dur.sub_add")
+	}
+	zzReach("end")
+}
+
+var zzCmpOps = [...]syntax.Token{syntax.EQL, syntax.NEQ, syntax.LT, syntax.LE, syntax.GT, syntax.GE}
+
+// zzRefCmp is the view of a three-way result c (<0, 0, >0) under operator i of zzCmpOps.
+func zzRefCmp(i int, lt, eq bool) bool {
+	switch i {
+	case 0:
+		return eq
+	case 1:
+		return zzNot(eq)
+	case 2:
+		return lt
+	case 3:
+		return zzOr(lt, eq)
+	case 4:
+		return zzNot(zzOr(lt, eq))
+	}
+	return zzNot(lt)
+}
+
+func zzInZone(t Time, z int) Time {
+	switch z {
+	case 1:
+		return Time(time.Time(t).UTC())
+	case 2:
+		return Time(time.Time(t).In(time.FixedZone("east", 5*3600+1800)))
+	}
+	return t
+}
+
+// zzH19_order (H19 Cmp/Hash): through the real starlark.Compare, the six
+// comparison operators on durations are the views of the int64 order, on times
+// the views of the lexicographic order of the normalised (sec, nsec) pairs,
+// whatever zone each operand carries (Local, UTC, a fixed zone); Cmp is
+// antisymmetric; equal values have equal hashes; Hash does not depend on the zone.
+//
+//verif:unwind 40
+func zzH19_order() {
+	oi := zzChoice("op", len(zzCmpOps))
+	if zzChoice("kind", 2) == 0 {
+		x, y := zzI64("x"), zzI64("y")
+		got, err := starlark.Compare(zzCmpOps[oi], Duration(x), Duration(y))
+		zzAssert(err == nil, "C19.order.dur.ok")
+		zzObserve("got", got)
+		zzAssert(got == zzRefCmp(oi, x < y, x == y), "C19.order.dur.view")
+		c1, _ := Duration(x).Cmp(Duration(y), 1)
+		c2, _ := Duration(y).Cmp(Duration(x), 1)
+		zzAssert(zzAnd(c1 == -c2, zzAnd(c1 >= -1, c1 <= 1)), "C19.order.dur.antisymmetric")
+		h1, e1 := Duration(x).Hash()
+		h2, e2 := Duration(y).Hash()
+		zzAssert(zzAnd(e1 == nil, e2 == nil), "C19.order.dur.hash_ok")
+		zzAssert(zzImplies(x == y, h1 == h2), "C19.order.dur.hash_eq")
+	} else {
+		t1, s1, n1 := zzSymTime("t1")
+		t2, s2, n2 := zzSymTime("t2")
+		a := zzInZone(t1, zzChoice("z1", 3))
+		b := zzInZone(t2, zzChoice("z2", 3))
+		lt := zzOr(s1 < s2, zzAnd(s1 == s2, n1 < n2))
+		eq := zzAnd(s1 == s2, n1 == n2)
+		got, err := starlark.Compare(zzCmpOps[oi], a, b)
+		zzAssert(err == nil, "C19.order.time.ok")
+		zzObserve("got", got)
+		zzAssert(got == zzRefCmp(oi, lt, eq), "C19.order.time.view")
+		c1, _ := a.Cmp(b, 1)
+		c2, _ := b.Cmp(a, 1)
+		zzAssert(zzAnd(c1 == -c2, zzAnd(c1 >= -1, c1 <= 1)), "C19.order.time.antisymmetric")
+		h1, e1 := a.Hash()
+		h2, e2 := b.Hash()
+		h0, _ := t1.Hash()
+		zzAssert(zzAnd(e1 == nil, e2 == nil), "C19.order.time.hash_ok")
+		zzAssert(zzImplies(eq, h1 == h2), "C19.order.time.hash_eq")
+		zzAssert(h1 == h0, "C19.order.time.hash_zone")
+	}
+	zzReach("end")
+}
+
+// zzH19_attrs (H19.3): unix / unix_nano / nanosecond attributes give back the
+// (sec, nsec) a time was built from, from_timestamp(sec, nsec) is the instant
+// sec*1e9 + nsec for any nsec (|nsec| < 2^62, not only normalised ones), both
+// round trips hold, and the integer duration attributes are the truncated
+// quotients by 10^6, 10^3, 1.
+//
+//verif:unwind 40
+//verif:timeout 240000
+func zzH19_attrs() {
+	zzRelDivMode(2)
+	th := &starlark.Thread{Name: "zz"}
+	switch zzChoice("what", 3) {
+	case 0:
+		t, sec, nsec := zzSymTime("t")
+		for i, name := range []string{"unix", "nanosecond", "unix_nano"} {
+			v, err := t.Attr(name)
+			zzAssert(err == nil, "C19.attrs.time.ok")
+			n, isI := v.(starlark.Int)
+			zzAssert(isI, "C19.attrs.time.type")
+			got, fits := n.Int64()
+			want := [...]int64{sec, nsec, sec*zzNano + nsec}[i]
+			zzObserve(name, got)
+			zzAssert(zzAnd(fits, got == want), "C19.attrs.time."+name)
+		}
+		// round trip through the constructor
+		u, _ := t.Attr("unix")
+		ns, _ := t.Attr("nanosecond")
+		back, err := fromTimestamp(th, nil, starlark.Tuple{u, ns}, nil)
+		bs, bn := zzMustTime(back, err, "C19.attrs.roundtrip")
+		zzAssert(zzAnd(bs == sec, bn == nsec), "C19.attrs.roundtrip.identity")
+	case 1:
+		sec, nsec := zzI64("sec"), zzI64("nsec")
+		zzAssume(zzAnd(sec >= -(zzWin / zzNano), sec < zzWin/zzNano))
+		zzAssume(zzAnd(nsec > -(1 << 62), nsec < 1<<62))
+		v, err := fromTimestamp(th, nil, starlark.Tuple{starlark.MakeInt64(sec), starlark.MakeInt64(nsec)}, nil)
+		rs, rn := zzMustTime(v, err, "C19.attrs.from_timestamp")
+		zzObserve("rs", rs)
+		zzObserve("rn", rn)
+		ws, wn := zzRefShift(sec, 0, nsec, +1)
+		zzAssert(zzAnd(rs == ws, rn == wn), "C19.attrs.from_timestamp.exact")
+		// one-argument form
+		v1, err := fromTimestamp(th, nil, starlark.Tuple{starlark.MakeInt64(sec)}, nil)
+		s1, n1 := zzMustTime(v1, err, "C19.attrs.from_timestamp1")
+		zzAssert(zzAnd(s1 == sec, n1 == 0), "C19.attrs.from_timestamp1.exact")
+	default:
+		d := zzI64("d")
+		for i, name := range []string{"milliseconds", "microseconds", "nanoseconds"} {
+			v, err := Duration(d).Attr(name)
+			zzAssert(err == nil, "C19.attrs.dur.ok")
+			n, isI := v.(starlark.Int)
+			zzAssert(isI, "C19.attrs.dur.type")
+			got, fits := n.Int64()
+			want := [...]int64{d / 1000000, d / 1000, d}[i]
+			zzObserve(name, got)
+			zzAssert(zzAnd(fits, got == want), "C19.attrs.dur."+name)
+		}
+	}
+	zzReach("end")
+}
